@@ -55,6 +55,9 @@ async fn run_async(case: &Case, fx: &Fixture) -> CaseResult {
             Err(e) => return CaseResult::discard(format!("optimizer: {:?}", err_class(&e))),
         };
     }
+    if !table_function_scans(&plan, &fx.tables).is_empty() {
+        return CaseResult::discard("plan scans a table function (Substrait names tables; the consuming session has no such table)");
+    }
     let original = match exec_logical(&a.ctx, &plan).await {
         Ok(x) => x,
         Err(e) => return CaseResult::discard(format!("original plan fails to run: {:?}", err_class(&e))),
@@ -118,7 +121,7 @@ impl Property for C37 {
         (refsql::case_strategy(&gen_config(tier)), prop_oneof![4 => Just(Source::Mem), 1 => Just(Source::Parquet)], any::<bool>()).prop_map(|(sql, source, optimized)| Case { sql, source, optimized }).boxed()
     }
     fn budget(&self, tier: Tier) -> Budget {
-        Budget::new(tier.pick(700, 40_000), tier.pick(8, 16)).min_nontrivial(tier.pick(60, 3_000)).discard_cap(0.7).case_timeout(120)
+        Budget::new(tier.pick(700, 40_000), tier.pick(8, 16)).min_nontrivial(tier.pick(60, 3_000)).discard_cap(0.7).case_timeout(120).shrink(400, 60)
     }
     fn rule(&self) -> String {
         "refsql query (C01 grammar, deterministic) over 3 tables (MemTables or Parquet listing tables), analyzed or optimized logical plan, through to_substrait_plan -> bytes -> from_substrait_plan in a fresh session; \
@@ -132,7 +135,15 @@ impl Property for C37 {
             "refsql::deterministic_on decides whether the original plan's rows are a function of the input".into(),
         ]
     }
+    fn known_signature(&self, case: &Case) -> Option<String> {
+        signature_of("C37", "c37", case, || run_inner(case))
+    }
     fn run(&self, case: &Case) -> CaseResult {
+        finish("c37", case, cached("c37", case, || run_inner(case)))
+    }
+}
+
+fn run_inner(case: &Case) -> CaseResult {
         if !refsql::deterministic_on(&case.sql.query, &case.sql.db()) {
             return CaseResult::discard("reference: query not deterministic on this data, or reference evaluation fails");
         }
@@ -151,4 +162,3 @@ impl Property for C37 {
             Err(_) => CaseResult::inconclusive("timeout"),
         }
     }
-}
